@@ -580,6 +580,7 @@ pub fn apply_bytes(buf: &[u8], addpath: bool, m: &mut Mirror) -> Result<usize, &
         read_prefixes(&body[4 + wl + al..], addpath, false, &mut reach)?;
         let mut nh = Term::atom("none");
         let mut attrs: Vec<(u8, Term)> = Vec::new();
+        let mut v6_eor = false;
         let mut a = &body[4 + wl..4 + wl + al];
         while !a.is_empty() {
             if a.len() < 3 {
@@ -634,10 +635,18 @@ pub fn apply_bytes(buf: &[u8], addpath: bool, m: &mut Mirror) -> Result<usize, &
                     if v.len() < 3 || (v[0], v[1], v[2]) != (0, 2, 1) {
                         return Err("mp-unreach-family");
                     }
+                    if v.len() == 3 && al == hdr + len && wl == 0 && body.len() == 4 + al {
+                        // End-of-RIB of the IPv6 family (RFC 4724): MP_UNREACH_NLRI without prefixes
+                        v6_eor = true;
+                    }
                     read_prefixes(&v[3..], addpath, true, &mut gone)?;
                 }
                 _ => attrs.push((code, raw_attr_t(flags, code, v))),
             }
+        }
+        if v6_eor {
+            written.clear();
+            continue;
         }
         for k in gone {
             m.remove(&k);
